@@ -292,7 +292,7 @@ pub fn check(s: &'static dyn Proto, c: &Case, st: &mut Stats, _k: &KnownFindings
 
 pub const BUDGET: Budget = Budget {
     quick: (400, 150, 50),
-    thorough: (600, 200, 60),
+    thorough: (3000, 1000, 300),
     shrink: 120,
 };
 
